@@ -51,6 +51,30 @@ func fastaText(name, seq []byte) []byte {
 	return sb.Bytes()
 }
 
+// fastaShape checks what the statement says about the written form and nothing more: a '>'+name
+// line, then sequence lines of at most 80 characters whose concatenation is the sequence, every
+// line terminated by LF.
+func fastaShape(out, name, seq []byte) string {
+	if len(out) == 0 || out[len(out)-1] != '\n' {
+		return "output does not end with a line break"
+	}
+	lines := bytes.Split(out[:len(out)-1], []byte("\n"))
+	if !bytes.Equal(lines[0], append([]byte(">"), name...)) {
+		return fmt.Sprintf("first line is %q, want '>' followed by the name", trunc(string(lines[0]), 60))
+	}
+	var cat []byte
+	for i, l := range lines[1:] {
+		if len(l) > 80 {
+			return fmt.Sprintf("sequence line %d has %d characters (more than 80)", i+1, len(l))
+		}
+		cat = append(cat, l...)
+	}
+	if !bytes.Equal(cat, seq) {
+		return "the sequence lines do not concatenate to the sequence"
+	}
+	return ""
+}
+
 func longSeq(n int) []byte {
 	s := make([]byte, n)
 	for i := range s {
@@ -93,8 +117,8 @@ func writeFastaChecked(recs []faRec) ([]byte, string) {
 		if !bytes.Equal(w.Bytes(), mt) {
 			return nil, fmt.Sprintf("MarshalText and Write differ for a sequence of %d bytes: %q vs %q", len(r.Seq), trunc(string(mt), 200), trunc(w.String(), 200))
 		}
-		if want := fastaText(r.Name.B(), r.Seq.B()); !bytes.Equal(w.Bytes(), want) {
-			return nil, fmt.Sprintf("Write output for name %q, sequence of %d bytes is %q, want %q ('>' name line, then lines of at most 80, all but the last exactly 80)", trunc(string(r.Name), 40), len(r.Seq), trunc(w.String(), 300), trunc(string(want), 300))
+		if fail := fastaShape(w.Bytes(), r.Name.B(), r.Seq.B()); fail != "" {
+			return nil, fmt.Sprintf("Write output for name %q, sequence of %d bytes: %s; output %q", trunc(string(r.Name), 40), len(r.Seq), fail, trunc(w.String(), 300))
 		}
 		if string(f.Name) != string(r.Name) || string(f.Sequence) != string(r.Seq) {
 			return nil, "Write modified the record"
